@@ -57,6 +57,42 @@ def paramsOf (t : Tok) : Option Params := do
              minForce := ← ratOf minf, kTab := ← (← ktab.list?).mapM ktabOf, dom := ← domOf dom }
   | _ => none
 
+def optIntOf (t : Tok) : Option (Option Int) := t.optInt?
+
+def varOf (t : Tok) : Option (String × Int) := do
+  match ← t.list? with
+  | [k, v] => pure (← k.str?, ← v.int?)
+  | _ => none
+
+/-- proc = [ names lower upper a pw base minf resMinDist|- bondType|- bondTypeVar resMinDistVar dom ] (rationals as [ n d ]) -/
+def procOf (t : Tok) : Option Proc := do
+  match ← t.list? with
+  | [names, lo, up, a, pw, base, minf, rmd, bt, btv, rmdv, dom] =>
+      pure { names := ← strs? names, lower := ← ratOf lo, upper := ← ratOf up, decayFactor := ← ratOf a,
+             decayPower := ← ratOf pw, base := ← ratOf base, minForce := ← ratOf minf,
+             resMinDist := ← rmd.optInt?, bondType := ← bt.optInt?, bondTypeVar := ← btv.str?,
+             resMinDistVar := ← rmdv.str?, dom := ← domOf dom }
+  | _ => none
+
+/-- mol = [ atoms edges vars ktab ] -/
+def molOf (t : Tok) : Option MolInput := do
+  match ← t.list? with
+  | [atoms, edges, vars, ktab] =>
+      pure { atoms := ← (← atoms.list?).mapM atomOf, edges := ← (← edges.list?).mapM pairOf,
+             vars := ← (← vars.list?).mapM varOf, kTab := ← (← ktab.list?).mapM ktabOf }
+  | _ => none
+
+def encRat (r : Rat) : String := encList [encInt r.num, encNat r.den]
+
+def encDom : Domain → String
+  | .always => "[ 0 ]"
+  | .chain => "[ 1 ]"
+  | .regions rs => encList ["2", encList (rs.map fun r => encList [encInt r.1, encInt r.2])]
+
+def encOptions (o : Options) : String :=
+  " ".intercalate [encList (o.names.map encStr), encRat o.lower, encRat o.upper, encRat o.decayFactor,
+    encRat o.decayPower, encRat o.base, encRat o.minForce, encInt o.bondType, encInt o.resMinDist, encDom o.dom]
+
 def encBond (b : Bond) : String :=
   encList [encInt b.a, encInt b.b, encNat b.len5, encInt b.k.num, encNat b.k.den]
 
@@ -75,6 +111,23 @@ def handle (_ : Unit) (toks : List Tok) : Unit × String :=
         let p ← paramsOf params
         pure (encOutcome (run as es p))
     | [Tok.str "len5", d2] => do pure (encNat (len5Of (← d2.nat?)))
+    | [Tok.str "resolve", proc, vars] => do
+        let p ← procOf proc
+        let vs ← (← vars.list?).mapM varOf
+        pure (encOptions (resolveOptions p vs))
+    | [Tok.str "history", proc, mols] => do
+        let p ← procOf proc
+        let ms ← (← mols.list?).mapM molOf
+        pure (" ; ".intercalate ((runHistory p ms).map fun r =>
+          match r.1 with
+          | .error _ => "error"
+          | .bonds (b :: bs) => encOutcome (.bonds (b :: bs)) ++ " bt=" ++ encInt r.2
+          | o => encOutcome o))
+    | [Tok.str "region", rs, ra, rb] => do
+        let regs ← (← rs.list?).mapM pairOf
+        let a : Atom := { (default : Atom) with oldResid := some (← ra.int?) }
+        let b : Atom := { (default : Atom) with oldResid := some (← rb.int?) }
+        pure (encBool (crit (.regions regs) a b))
     | _ => none
   ((), r.getD "bad-op")
 
